@@ -15,13 +15,15 @@ Section Data.
 Variable fin : f64 -> Prop.
 (* null in the data is admitted only together with schemas free of allOf / anyOf / not at every level (see [local_clean]) *)
 Variable allow_null : bool.
-Notation jd := (AgreementData.jd fin allow_null).
+(* arrays in the data are admitted only together with schemas whose formats sit next to a type list that accepts arrays (see [local_clean]) *)
+Variable allow_arr : bool.
+Notation jd := (AgreementData.jd fin allow_null allow_arr).
 
 (* JSON data of the class has no member named "headers": no IMPORTANT! error is produced on it (Schema/PipelineQuiet.v) *)
 Lemma jd_nohdr : forall v, jd v -> nohdr v.
 Proof.
   fix IH 1. intros v. destruct v as [| | | | | |id l| |id m]; intros H; try exact I; try (exfalso; exact H).
-  - apply nohdr_arr. apply jd_arr in H. revert l H. fix IHl 1. intros l H. destruct l as [|x t]; [constructor|].
+  - apply nohdr_arr. apply jd_arr in H. destruct H as [_ H]. revert l H. fix IHl 1. intros l H. destruct l as [|x t]; [constructor|].
     inversion H; subst. constructor; [apply IH; assumption | apply IHl; assumption].
   - apply nohdr_obj. apply jd_obj in H. destruct H as [H _]. revert m H. fix IHm 1. intros m H. destruct m as [|kv t]; [constructor|].
     inversion H as [|y ys [Hk Hv] Ht]; subst. destruct Hk as [_ [_ Hk]].
@@ -123,6 +125,35 @@ Proof.
   - transitivity (contains k_object tys); [|rewrite contains_existsb; apply existsb_ext; intros; reflexivity].
     destruct (contains k_number tys), (contains k_integer tys), (contains k_object tys), (Z.eqb format 0), (Z.eqb 0 format), (Z.eqb format k_int64), (Z.eqb format k_float64);
       try discriminate; reflexivity.
+Qed.
+
+(* a format next to a type list without number and integer: the string / array shortcut of type.go:200 accepts every string
+   and every array, so the list must accept strings - and arrays, when the data may hold arrays *)
+Lemma type_agree_strfmt p types format d : jd d -> contains k_number types || contains k_integer types = false ->
+  contains k_string types = true -> (allow_arr = true -> contains k_array types = true) ->
+  r_valid (type_validate N p types false format d) =
+  (match types with [] => true | t0 :: ts => existsb (fun t => has_type N t d) (t0 :: ts) end).
+Proof.
+  intros Hd Hnum Hstr Harr. destruct types as [|t0 ts]; [discriminate|]. set (tys := t0 :: ts) in *.
+  apply orb_false_iff in Hnum. destruct Hnum as [Hn Hi].
+  destruct d as [| | |d32 fd| | |idd ld| |idd md]; try (exfalso; exact Hd); unfold type_validate; cbn [info_for_type is_string_kind is_slice_kind negb andb orb].
+  - transitivity (contains k_null tys); [|rewrite contains_existsb; apply existsb_ext; intros; reflexivity].
+    cbn [length Nat.eqb negb andb]. destruct (contains k_null tys); reflexivity.
+  - transitivity (contains k_boolean tys); [|rewrite contains_existsb; apply existsb_ext; intros; reflexivity].
+    rewrite Hn, Hi, (Z.eqb_sym 0 format).
+    destruct (contains k_boolean tys), (Z.eqb format 0), (Z.eqb format k_int64), (Z.eqb format k_float64); reflexivity.
+  - transitivity (contains k_string tys); [|rewrite contains_existsb; apply existsb_ext; intros; reflexivity].
+    rewrite Hn, Hi, Hstr. destruct (Z.eqb format 0); reflexivity.
+  - cbn [jd] in Hd. destruct Hd as [-> _].
+    transitivity (contains k_number tys || (n_is_int N fd && contains k_integer tys)).
+    { cbn [info_for_type]. rewrite Hn, Hi, !andb_false_r. cbn [orb].
+      destruct (Z.eqb format 0), (Z.eqb k_float64 format), (Z.eqb format k_int64), (Z.eqb format k_float64), (Z.eqb k_number k_number), (Z.eqb k_number k_integer); reflexivity. }
+    rewrite !contains_existsb. rewrite (andb_comm (n_is_int N fd)). rewrite <- existsb_and_const, <- existsb_or. reflexivity.
+  - transitivity (contains k_array tys); [|rewrite contains_existsb; apply existsb_ext; intros; reflexivity].
+    apply jd_arr in Hd. destruct Hd as [Ha _]. rewrite Hn, Hi, (Harr Ha). destruct (Z.eqb format 0); reflexivity.
+  - transitivity (contains k_object tys); [|rewrite contains_existsb; apply existsb_ext; intros; reflexivity].
+    rewrite Hn, Hi, (Z.eqb_sym 0 format).
+    destruct (contains k_object tys), (Z.eqb format 0), (Z.eqb format k_int64), (Z.eqb format k_float64); reflexivity.
 Qed.
 
 (* 5.5.1 *)
@@ -273,7 +304,7 @@ Proof.
   set (size := Z.of_nat (length l)).
   set (U := s_unique s && unique_items N [] l).
   assert (HU : (if s_unique s then negb (has_dup N l) else true) = negb U).
-  { unfold U. destruct (s_unique s); [|reflexivity]. cbn [andb]. rewrite (unique_items_has_dup fin allow_null N Heq_sym l Hl). reflexivity. }
+  { unfold U. destruct (s_unique s); [|reflexivity]. cbn [andb]. rewrite (unique_items_has_dup fin allow_null allow_arr N Heq_sym l Hl). reflexivity. }
   rewrite HU.
   assert (Hsizes : forall r3,
     r_valid (r_inc (if U then r_add (match s_max_items s with
@@ -878,7 +909,10 @@ Definition local_clean (s : schema) : Prop :=
   (allow_null = true -> nullsafe s) /\
   s_ref s = None /\
   (* a format only next to a numeric type: elsewhere the string / array shortcut of the type validator applies (finding class) *)
-  (s_format s = 0 \/ contains k_number (s_types s) || contains k_integer (s_types s) = true) /\
+  (s_format s = 0 \/ contains k_number (s_types s) || contains k_integer (s_types s) = true \/
+   (* ... or next to a type list that accepts strings (and arrays, when the data may hold arrays): then the shortcut accepts what the list accepts *)
+   (contains k_number (s_types s) || contains k_integer (s_types s) = false /\ contains k_string (s_types s) = true /\
+    (allow_arr = true -> contains k_array (s_types s) = true))) /\
   s_nullable s = false /\ Forall jd (s_enum s) /\
   (s_pattern s = 0 \/ o_re_ok OR (s_pattern s) = true) /\
   array_clean s /\ object_clean s /\ comp_clean s /\ bounds_fin s.
@@ -897,9 +931,13 @@ Proof.
   assert (Hr0 : r_valid r0 = true) by apply r_valid_r0.
   set (r1 := if type_applies (s_types s) (s_format s) then r_inc (merge r0 (Some (type_validate N p (s_types s) false (s_format s) d))) else r0).
   assert (Hr1 : r_valid r1 = type_ok N s d).
-  { unfold r1, type_ok. destruct Hfmt as [Hf0 | Hnum].
+  { unfold r1, type_ok. destruct Hfmt as [Hf0 | [Hnum | [Hnn [Hstr Harrt]]]].
     - rewrite Hf0. rewrite <- (type_agree p (s_types s) d Hd). destruct (type_applies (s_types s) 0); [rewrite r_valid_inc, r_valid_merge, Hr0; reflexivity | exact Hr0].
     - rewrite <- (type_agree_numeric p (s_types s) (s_format s) d Hd Hnum).
+      assert (Ha : type_applies (s_types s) (s_format s) = true).
+      { unfold type_applies. destruct (s_types s); [discriminate | reflexivity]. }
+      rewrite Ha, r_valid_inc, r_valid_merge, Hr0. reflexivity.
+    - rewrite <- (type_agree_strfmt p (s_types s) (s_format s) d Hd Hnn Hstr Harrt).
       assert (Ha : type_applies (s_types s) (s_format s) = true).
       { unfold type_applies. destruct (s_types s); [discriminate | reflexivity]. }
       rewrite Ha, r_valid_inc, r_valid_merge, Hr0. reflexivity. }
@@ -943,7 +981,7 @@ Proof.
       change (all_opt [Some a; Some b; Some c; Some true; Some true; Some true; Some e]) with (Some (a && (b && (c && (true && (true && (true && (e && true))))))))
     end. f_equal. btauto.
   - (* array *)
-    apply jd_arr in Hd. destruct (slice_agree p s id l K Harr Hd) as [xs [Hxs Ha]].
+    apply jd_arr in Hd. destruct Hd as [_ Hd]. destruct (slice_agree p s id l K Harr Hd) as [xs [Hxs Ha]].
     cbv beta iota zeta. fold r0. fold r1. rewrite Hx2. cbn [bind is_string_kind is_number_kind is_slice_kind is_map_kind format_applies andb].
     rewrite Hxs. cbn [bind]. eexists. split; [reflexivity|]. rewrite Ha. cbn [numeric_ok string_ok object_ok].
     repeat (rewrite r_valid_inc || rewrite r_valid_merge). rewrite Hr1, He, Hvx2. cbn [deps_verdict].
